@@ -49,7 +49,7 @@ def flatten(tree, main, caller_dirs=()):
         return hits[0]
 
     def run(path, dirs, depth):
-        assert depth < 40
+        assert depth < 80
         here = posixpath.dirname(path)
         dirs = set(dirs) | {here}
         added = set()
@@ -144,6 +144,21 @@ def fixed():
     t.files['main.asm'] = ['.include "a.inc"', '.dseg', 'buf: .byte 3', '.cseg', 'ldi r16, low(buf)', 'ldi r17, low(v)']
     t.files['a.inc'] = ['.dseg', 'v: .byte 5', '.eseg', '.db 1, 2, 3', '.cseg', 'nop']
     same('segments_switched_inside', t)
+
+    t = Tree()       # a relative caller directory spelled like the operand of an .includepath in a file elsewhere: two different directories
+    t.files['main.asm'] = ['.include "lib/a.inc"', 'ret']
+    t.files['lib/a.inc'] = ['.includepath "shared"', '.include "defs.inc"', 'ldi r16, D']
+    t.files['lib/shared/defs.inc'] = ['.equ D = 5']
+    t.files['shared/other.inc'] = ['.equ E = 6']
+    same('includepath_spelled_like_a_caller_directory', t, 'main.asm', ('shared',))
+
+    t = Tree()
+    n = 64
+    t.files['main.asm'] = ['.include "f1.inc"', 'ret']
+    for i in range(1, n):
+        t.files['f%d.inc' % i] = ['.include "f%d.inc"' % (i + 1)]
+    t.files['f%d.inc' % n] = ['ldi r16, 64']
+    same('nested_64_deep_is_still_accepted', t)
 
     t = Tree()
     t.files['main.asm'] = ['.message "main first"', '.include "lib/a.inc"', '.warning "main last"', 'ret']
